@@ -220,12 +220,8 @@ func renderOPLVariant(r *rng, nss []*namespace.Namespace) string {
 			sb.WriteString("related:" + ws(r) + "{\n")
 			for _, x := range rel {
 				ty := renderTypesV(r, x.Types)
-				sep := "\n"
-				if !strings.HasPrefix(ty, "Array<") {
-					sep = r.pick([]string{"\n", ",\n", ";\n", ", "})
-				} else {
-					sep = r.pick([]string{"\n", ";\n"})
-				}
+				// (a ',' after Array<T> was rejected before fix D22; it stays in the generator as the regression witness)
+				sep := r.pick([]string{"\n", ",\n", ";\n", ", "})
 				sb.WriteString("  " + quoteName(r, x.Name) + ":" + ws(r) + ty + sep)
 			}
 			sb.WriteString("}" + r.pick([]string{"\n", ";\n", ""}))
